@@ -24,7 +24,7 @@ Definition write_at (t : tgt) (bs : list byte) : tgt * out :=
   if Nat.leb (length bs) (length (buf t) - pos t)      (* does_buffer_have_at_least *)
   then ({| buf := put (buf t) (pos t) bs; pos := pos t + length bs; res := res t |}, Done)
   else (t, Eob).
-Definition step (t : tgt) (o : op) : tgt * out :=
+Definition bstep (t : tgt) (o : op) : tgt * out :=
   match o with
   | WByte b => write_at t [b]
   | WBytes bs => write_at t bs
@@ -126,7 +126,7 @@ Definition Rv (t : vtgt) (a : list seg) : Prop :=
 
 (* histories *)
 Fixpoint run (t : tgt) (ops : list op) : tgt * list out :=
-  match ops with [] => (t, []) | o :: r => let '(t', x) := step t o in let '(t'', xs) := run t' r in (t'', x :: xs) end.
+  match ops with [] => (t, []) | o :: r => let '(t', x) := bstep t o in let '(t'', xs) := run t' r in (t'', x :: xs) end.
 Fixpoint arun (a : alog) (ops : list op) : alog * list out :=
   match ops with [] => (a, []) | o :: r => let '(a', x) := astep a o in let '(a'', xs) := arun a' r in (a'', x :: xs) end.
 Fixpoint vrun (t : vtgt) (ops : list op) : vtgt * list out :=
